@@ -246,9 +246,10 @@ where
                 let result = catch(|| match op {
                     Op::Pixel(p, c) => Pixel(*p, *c).draw(&mut clone).unwrap(),
                     Op::DrawPixel(p, c) => clone.draw_pixel(*p, *c),
-                    Op::Iter(v) => clone.draw_iter(v.iter().map(|(p, c)| Pixel(*p, *c))).unwrap(),
+                    Op::Iter(v) => clone.draw_iter(crate::gen::stream_route(v, (v.len() as u32).wrapping_add(v.first().map_or(0, |f| f.0.x as u32))).map(|(p, c)| Pixel(p, c))).unwrap(),
                     Op::FillSolid(a, c) => clone.fill_solid(a, *c).unwrap(),
-                    Op::FillContiguous(a, cs) => clone.fill_contiguous(a, cs.iter().copied()).unwrap(),
+                    // (the colour stream has one of the size_hint shapes of `gen::stream_route`, chosen by the operation's content)
+                    Op::FillContiguous(a, cs) => clone.fill_contiguous(a, crate::gen::stream_route(cs, (cs.len() as u32).wrapping_add(a.size.width.wrapping_mul(3)).wrapping_add(a.top_left.y as u32))).unwrap(),
                     Op::Clear(c) => clone.clear(*c).unwrap(),
                     Op::StyledRect(a, c) => {
                         use embedded_graphics::primitives::{Primitive, PrimitiveStyle};
@@ -261,6 +262,7 @@ where
                         display = clone;
                         model = trial;
                     }
+                    (_, Err(p)) if p.in_harness() => return Err(panic_fail(p)),
                     (None, Err(p)) => {
                         return fail("panic:unexpected", format!("operation {} ({:?}) panicked ({}) although no pixel is out of range or repeated while the check is on", k, op, p.msg));
                     }
